@@ -10,6 +10,7 @@ import (
 	"runtime"
 	"strings"
 	"sync"
+	"sync/atomic"
 	"time"
 
 	"github.com/relab/gorums"
@@ -495,7 +496,14 @@ func Run(c Case, h Hooks) Result {
 		}
 		first := base
 		last := base + uint64(len(c.Ops))
-		cl.Log.WaitFor(scen.B, func(evs []scen.Event) bool {
+		wait := scen.B
+		for _, client := range clients {
+			if atomic.LoadInt32(&client.SendsFailed) > 0 {
+				// a stream write was failed on purpose: some requests are never handled
+				wait = 200 * time.Millisecond
+			}
+		}
+		cl.Log.WaitFor(wait, func(evs []scen.Event) bool {
 			return scen.Count(evs, func(e scen.Event) bool { return e.Kind == "enter" && e.Token >= first && e.Token < last }) >= want
 		})
 	}
